@@ -2,7 +2,7 @@ use std::collections::HashMap;
 
 use rusty_common::CaseInsensitiveString;
 use rusty_linter::core::{QBNumberCast, ScopeName};
-use rusty_parser::{BareName, BuiltInFunction, Parameter, TypeQualifier};
+use rusty_parser::{BareName, BuiltInFunction, Name, Parameter, TypeQualifier};
 use rusty_variant::{
     UserDefinedTypeValue, VArray, Variant, bytes_to_f64, bytes_to_i32, f64_to_bytes, i32_to_bytes,
 };
@@ -80,11 +80,23 @@ impl Context {
                 } else {
                     vec![]
                 };
+                // The same holds for the result of a STATIC function that calls itself:
+                // what the calling activation has assigned to the function name so far
+                // must survive the call.
+                let saved_function_result: Option<(Name, Variant)> = match &scope_name {
+                    ScopeName::Function(function_name) if is_active => self.memory_blocks
+                        [memory_block_index]
+                        .variables
+                        .get_by_name(function_name)
+                        .map(|value| (function_name.clone(), value.clone())),
+                    _ => None,
+                };
                 self.memory_blocks[memory_block_index]
                     .variables
                     .apply_arguments(arguments);
                 self.do_push_existing(memory_block_index, false);
                 self.state_mut().saved_parameters = saved_parameters;
+                self.state_mut().saved_function_result = saved_function_result;
             }
             _ => {
                 let variables = Variables::from(arguments);
@@ -258,6 +270,11 @@ impl Context {
             self.memory_blocks[state.memory_block_index]
                 .variables
                 .insert_param(param_name, value);
+        }
+        if let Some((function_name, value)) = state.saved_function_result.take() {
+            self.memory_blocks[state.memory_block_index]
+                .variables
+                .insert(function_name, value);
         }
         let removed_from_rc = self.decrease_ref_count(state.memory_block_index);
         if removed_from_rc {
@@ -509,6 +526,9 @@ struct State {
     /// The parameters of the calling activation of a STATIC function/sub
     /// that called itself, to be restored when this activation ends.
     saved_parameters: Vec<(Parameter, Variant)>,
+    /// What the calling activation of a STATIC function that called itself
+    /// had assigned to the function name, to be restored when this activation ends.
+    saved_function_result: Option<(Name, Variant)>,
 }
 
 impl State {
@@ -521,6 +541,7 @@ impl State {
                 None
             },
             saved_parameters: vec![],
+            saved_function_result: None,
         }
     }
 }
